@@ -98,6 +98,19 @@ def root_oracle(variant, c, T):
         rv = val(ratio)
         if rv < 0:
             continue
+        # does g(m a) / g(m b) = rv have a real solution m != 0 ?  (a = t - T/2, b = a + 1; the ratio is monotone in m > 0,
+        # from its m -> 0 limit `lim` to infinity (|a| > |b|) or to 0 (|a| < |b|); for |a| = |b| it does not depend on m)
+        a_, b_ = t - T / 2, t + 1 - T / 2
+        if abs(a_) == abs(b_):
+            out[t] = ('nosol', 'the ratio does not depend on the mass (2t+1 = T)')
+            continue
+        lim = 1.0 if variant in ('cosh', 'periodic') else a_ / b_
+        if abs(rv - lim) < 1e-6 * max(1.0, abs(lim)):
+            out[t] = ('skip',)      # the boundary: solved by m = 0
+            continue
+        if (rv < lim) if abs(a_) > abs(b_) else (rv > lim):
+            out[t] = ('nosol', 'C(t)/C(t+1) = %r is on the wrong side of the m -> 0 limit %r' % (rv, lim))
+            continue
 
         def f(m):
             return g(m * (t - T / 2)) / g(m * (t + 1 - T / 2)) - rv
@@ -199,7 +212,7 @@ def check_case(ctx, case):
         with np.errstate(all='ignore'):
             exp = formula(kind, variant, c, T)
         exp_def = exp
-    any_def = any(e is not None and not (isinstance(e, tuple) and e[0] in ('skip', 'prev')) for e in exp_def)
+    any_def = any(e is not None and not (isinstance(e, tuple) and e[0] in ('skip', 'prev', 'nosol')) for e in exp_def)
     if exc is not None:
         if any_def:
             probs.append(('violation', 'raises-%s-%s' % (kind, variant), '%s: %s' % (type(exc).__name__, str(exc)[:120])))
@@ -207,11 +220,19 @@ def check_case(ctx, case):
     if not isinstance(res, pe.Corr) or res.T != T:
         probs.append(('violation', 'shape-%s-%s' % (kind, variant), 'T %s vs %d' % (getattr(res, 'T', None), T)))
         return probs
+    nosol_reported = False
     for t in range(T):
         g = res.content[t]
         e = exp_def[t]
         if rootv:
             if isinstance(e, tuple) and e[0] == 'skip':
+                continue
+            if isinstance(e, tuple) and e[0] == 'nosol':
+                # the property: undefined where the formula has no real solution.  (known finding: the root search is
+                # not asked whether it converged and its last iterate is returned as the mass)
+                if g is not None and not nosol_reported:
+                    nosol_reported = True
+                    probs.append(('violation', 'meff-root-no-real-solution', 'm_eff(%r) T=%d t=%d: %s, returned %r' % (variant, T, t, e[1], float(g[0].value))))
                 continue
             if isinstance(e, tuple) and e[0] == 'prev':
                 prev = res.content[t - 1] if t > 0 else None
@@ -344,5 +365,5 @@ def run(ctx):
         ctx.case(case)
         for (kind, key, info) in check_case(ctx, case):
             (ctx.violation if kind == 'violation' else ctx.disagree)(key, {'case': case, 'info': info})
-        if len(ctx.violations) + len(ctx.disagreements) > 25:
+        if len([v for v in ctx.violations if v[0] != 'meff-root-no-real-solution']) + len(ctx.disagreements) > 25:
             break
